@@ -100,6 +100,8 @@ def fbits(tok):
             v = float.fromhex(tok)
         else:
             v = float(t)
+        if v != v:
+            return 0x7FF8000000000001   # Go's math.NaN()
         return struct.unpack(">Q", struct.pack(">d", v))[0]
     except (ValueError, OverflowError):
         return 0
